@@ -9,10 +9,16 @@
    schedule of the lock-step driver.  [eda] ("TaskErr counts as done") selects the
    Enqueue switch: true = the code as it is (err_counts_as_done, read off the Go
    AST), false = the repaired switch. *)
+(* Since 0540c52 a second switch is read off the Go AST: eval_counts_loss_once (the
+   loss of a run is counted once, by the runner's waiter or by whichever evaluation
+   resubmits the task first).  [step eda g], [reachable eda g], [lock_step eda g] stand
+   for the code version that goes with [eda]: [ver eda] = the former accounting for
+   eda = true (the original code), what the source has now for eda = false.  The
+   *_v functions take both switches explicitly ([clo] first). *)
 From Coq Require Import List ZArith Bool.
 Import ListNotations.
 Require Import BS.Gen.C03_params BS.C03.Model BS.C03.Proofs BS.C03.Safety BS.C03.Theorems
-               BS.C03.Needed BS.C03.Lockstep BS.C03.Progress.
+               BS.C03.Needed BS.C03.Lockstep BS.C03.Progress BS.C03.Counting.
 
 (* ------------------------------------------------------------------ tie to the source (goparams) *)
 
@@ -57,8 +63,20 @@ Proof. split; [reflexivity | destruct s; reflexivity]. Qed.
 
 (* Eval compares task.state: == TaskLost, == TaskInit, < TaskRunning, < TaskOk *)
 Theorem C03_gen_eval_comparisons :
-  eval_state_cmps = [(0, code TLost); (0, code TInit); (2, code TRunning); (2, code TOk)]%Z.
+  eval_state_cmps =
+  [(0, code TLost); (0, code TLost); (0, code TInit); (2, code TRunning); (2, code TOk)]%Z.
 Proof. reflexivity. Qed.
+
+(* who accounts for the loss of a run: Eval's main loop calls task.countLost() before it
+   resubmits a lost task and the hand-out sets lossUncounted (0540c52); the waiter's
+   bookkeeping switch sits under `if runner` *)
+Theorem C03_gen_counts_loss_once : eval_counts_loss_once = true.
+Proof. reflexivity. Qed.
+Theorem C03_gen_bookkeeping_guarded_by_runner : eval_bookkeeping_guarded_by_runner = true.
+Proof. reflexivity. Qed.
+(* the two code versions the un-suffixed names stand for *)
+Theorem C03_gen_versions : ver false = true /\ ver true = false /\ ver err_counts_as_done = true.
+Proof. repeat split; reflexivity. Qed.
 
 (* the executable graph check of the correspondence driver implies the hypothesis of the theorems *)
 Theorem C03_wf_graphb_sound : forall g, wf_graphb g = true -> wf g.
@@ -149,37 +167,99 @@ Print Assumptions C03_success_refuted.
 
 (* ------------------------------------------------------------------ errors are reported; lost tasks are resubmitted *)
 
-Theorem C03_fatal_reported : forall eda g w ev t r,
+Theorem C03_fatal_reported : forall clo eda g w ev t r,
   eres ev = None -> quiet1 w ev -> find_waiter t (ewait ev) = Some r ->
   exists sy' runs,
-    lock_step eda g (S1 w ev) (LSet t TErr) = (sy', runs, true) /\
+    lock_step_v clo eda g (S1 w ev) (LSet t TErr) = (sy', runs, true) /\
     eres (get_ev sy' 0) = Some true.
 Proof. exact fatal_reported. Qed.
 
-Theorem C03_lost_limit : forall eda g w ev t,
+(* one evaluation, either accounting (with the new one the task's loss must be
+   uncounted, as it is after every hand-out) *)
+Theorem C03_lost_limit : forall clo eda g w ev t,
   eres ev = None -> quiet1 w ev -> find_waiter t (ewait ev) = Some true ->
+  (clo = true -> wlu w t = true) ->
   (wcl w t + 1 >= max_consecutive_lost)%Z ->
   exists sy' runs,
-    lock_step eda g (S1 w ev) (LSet t TLost) = (sy', runs, true) /\
+    lock_step_v clo eda g (S1 w ev) (LSet t TLost) = (sy', runs, true) /\
     eres (get_ev sy' 0) = Some true /\ wst (sw sy') t = TErr.
 Proof. exact lost_limit. Qed.
 Print Assumptions C03_lost_limit.
 
-Theorem C03_lost_resubmitted : forall eda g, wf g -> forall w ev t,
+Theorem C03_lost_resubmitted : forall clo eda g, wf g -> forall w ev t,
   eres ev = None -> soof (est ev) = false -> stodo (est ev) = [] ->
   quiet1 w ev -> find_waiter t (ewait ev) = Some true ->
   (wcl w t + 1 < max_consecutive_lost)%Z ->
   deps_done eda g (wst w) t ->
-  In (0, t) (snd (fst (lock_step eda g (S1 w ev) (LSet t TLost)))).
+  In (0, t) (snd (fst (lock_step_v clo eda g (S1 w ev) (LSet t TLost)))).
 Proof. exact lost_resubmitted. Qed.
 Print Assumptions C03_lost_resubmitted.
 
-(* with two evaluations the limit can be bypassed (goroutine race on the loss counter) *)
+(* ---- any number of evaluations, any order of their steps (the code since 0540c52) ---- *)
+
+(* in every reachable state, for every step of whichever evaluation and every task:
+   consecutiveLost moves by one count per hand-out, and the count that reaches the
+   limit puts the task in ERR *)
+Theorem C03_loss_counted_once : forall g, wf g -> forall st0 rootss sy l t,
+  reachable_v true false g (init_sys st0 rootss) sy -> legal_label l ->
+  let sy' := fst (step_v true false g sy l) in
+  let runs := snd (step_v true false g sy l) in
+  (wcl (sw sy') t = wcl (sw sy) t \/ wcl (sw sy') t = 0%Z \/
+   (wcl (sw sy') t = (wcl (sw sy) t + 1)%Z /\ wlu (sw sy) t = true /\
+    (wlu (sw sy') t = false \/ exists e, In (e, t) runs))) /\
+  (wlu (sw sy') t = true -> wlu (sw sy) t = true \/ exists e, In (e, t) runs) /\
+  (forall e, In (e, t) runs ->
+     wlu (sw sy') t = true /\
+     (wlu (sw sy) t = true -> wst (sw sy) t = TLost -> wcl (sw sy') t = (wcl (sw sy) t + 1)%Z)) /\
+  ((wcl (sw sy) t < max_consecutive_lost)%Z -> (wcl (sw sy') t >= max_consecutive_lost)%Z ->
+     wst (sw sy') t = TErr /\ forall e, ~ In (e, t) runs).
+Proof. exact loss_counted_once. Qed.
+Print Assumptions C03_loss_counted_once.
+
+(* the loss that reaches the limit: the task ends in ERR, counted once, is not handed
+   out again, and EVERY evaluation that was awaiting it has returned an error at the next
+   quiescent point, whatever the order of the evaluations' steps (second disjunct: all
+   of them had already failed for another task before any looked at this one) *)
+Theorem C03_lost_limit_all_evaluators : forall g, wf g -> forall st0 rootss sy0 t ls,
+  reachable_v true false g (init_sys st0 rootss) sy0 ->
+  handed (wst (sw sy0) t) -> wlu (sw sy0) t = true ->
+  deps_done false g (wst (sw sy0)) t ->
+  (wcl (sw sy0) t + 1 >= max_consecutive_lost)%Z ->
+  Forall ev_label ls ->
+  let r := exec_v true false g sy0 (LSet t TLost :: ls) in
+  quiescent (fst r) ->
+  (forall e, awaiting sy0 t e -> eres (get_ev (fst r) e) = Some true) /\
+  cnt t (runs_of (snd r)) = 0 /\
+  (tv (sw (fst r)) t = (TErr, (wcl (sw sy0) t + 1)%Z, false) \/
+   tv (sw (fst r)) t = (TLost, wcl (sw sy0) t, true)).
+Proof. exact lost_limit_all_evaluators. Qed.
+Print Assumptions C03_lost_limit_all_evaluators.
+
+(* fewer losses: counted exactly once and handed out again exactly once, by whichever
+   evaluation gets there first (second disjunct: every awaiting evaluation had failed) *)
+Theorem C03_lost_resubmitted_all_evaluators : forall g, wf g -> forall st0 rootss sy0 t ls,
+  reachable_v true false g (init_sys st0 rootss) sy0 ->
+  handed (wst (sw sy0) t) -> wlu (sw sy0) t = true ->
+  deps_done false g (wst (sw sy0)) t ->
+  (wcl (sw sy0) t + 1 < max_consecutive_lost)%Z ->
+  Forall ev_label ls ->
+  let r := exec_v true false g sy0 (LSet t TLost :: ls) in
+  quiescent (fst r) ->
+  (cnt t (runs_of (snd r)) = 1 /\ handed (wst (sw (fst r)) t) /\
+   wcl (sw (fst r)) t = (wcl (sw sy0) t + 1)%Z /\ wlu (sw (fst r)) t = true) \/
+  (cnt t (runs_of (snd r)) = 0 /\ wst (sw (fst r)) t = TLost /\
+   (wcl (sw (fst r)) t = wcl (sw sy0) t \/ wcl (sw (fst r)) t = (wcl (sw sy0) t + 1)%Z) /\
+   forall e, awaiting sy0 t e -> eres (get_ev (fst r) e) = Some true).
+Proof. exact lost_resubmitted_all_evaluators. Qed.
+Print Assumptions C03_lost_resubmitted_all_evaluators.
+
+(* the former accounting (before 0540c52; clo = false): with two evaluations the limit
+   could be bypassed - kept as a witness for the old switch value only *)
 Theorem C03_lost_limit_two_evaluators_refuted :
   exists g st0 rootss ls,
     wf g /\ Forall legal_label ls /\
     length (filter (fun l => match l with LSet 0 TLost => true | _ => false end) ls) = Z.to_nat max_consecutive_lost /\
-    let r := exec true g (init_sys st0 rootss) ls in
+    let r := exec_v false false g (init_sys st0 rootss) ls in
     forallb (fun x => match fst (fst x) with
                       | LSet 0 TLost => st_eqb (wst (snd (fst x)) 0) TWaiting
                       | _ => true end) (snd r) = true /\
@@ -187,6 +267,15 @@ Theorem C03_lost_limit_two_evaluators_refuted :
     eres (get_ev (fst r) 0) = None /\ eres (get_ev (fst r) 1) = None /\
     wst (sw (fst r)) 0 = TWaiting /\ (wcl (sw (fst r)) 0 < max_consecutive_lost)%Z.
 Proof. exact lost_limit_two_evaluators_refuted. Qed.
+
+(* ... and the same schedule under the present accounting ends in ERR with both
+   evaluations failed, at the fifth loss *)
+Theorem C03_race_schedule_now_reports :
+  let r := exec_v true false [mkT [] []] (init_sys (fun _ => TInit) [[0]; [0]])
+                  (race_schedule ++ [LMain 0; LWait 1 0; LMain 1]) in
+  eres (get_ev (fst r) 0) = Some true /\ eres (get_ev (fst r) 1) = Some true /\
+  wst (sw (fst r)) 0 = TErr /\ wcl (sw (fst r)) 0 = max_consecutive_lost.
+Proof. exact race_schedule_now_reports. Qed.
 
 (* ------------------------------------------------------------------ never idle with work outstanding *)
 
